@@ -69,7 +69,7 @@ KINDS = ('iterative', 'array', 'plain', 'load', 'trim', 'iter-acyclic', 'failing
 
 
 MIXED = {'quick': (1152, 2400), 'thorough': (JK * JK * 60, JK * JK * 60 + 40000)}
-SITE_RUNS = {'quick': 1600, 'thorough': 40000}
+SITE_RUNS = {'quick': 1200, 'thorough': 40000}
 
 
 def budget(tier):
@@ -320,6 +320,8 @@ def gen_case(rnd, tier, index):
         # functions of its alone run (low-discrepancy sequence over run indexes), see below
         n_ = index - MIXED[tier if tier in MIXED else 'quick'][1]
         kinds = [rnd.choice(KINDS), rnd.choice(KINDS)]
+        # (a failing evaluation traced line by line through pycel's error capture is slow)
+        kinds = [k_ if k_ != 'failing' or rnd.random() < 0.3 else 'plain' for k_ in kinds]
         programs = [draw_program(rnd, f'T{i}', k) for i, k in enumerate(kinds)]
         schedule = {'family': 'site', 'u': round((n_ * 0.6180339887498949) % 1.0, 6),
                     'v': round((n_ * 0.7548776662466927) % 1.0, 6),
@@ -343,7 +345,8 @@ def gen_case(rnd, tier, index):
             kinds = ['slowplug', rnd.choice(('slowplug', 'slowplug', 'array', 'plain'))] + kinds[2:]
         programs = [draw_program(rnd, f'T{i}', k) for i, k in enumerate(kinds)]
         names = [pr['name'] for pr in programs]
-        line = (not kf4) and (not slow) and rnd.random() < 0.25 and 'deep' not in kinds
+        line = (not kf4) and (not slow) and rnd.random() < 0.25 and 'deep' not in kinds and (
+            'failing' not in kinds or rnd.random() < 0.3)
         if line and rnd.random() < 0.5:
             # A is pre-empted inside a function drawn uniformly from the *distinct* functions
             # of pycel its alone run passes through (so that a leaf function that accounts
